@@ -128,11 +128,11 @@ theorem noCtr_frame (p : Sess) (hq : noCtr p = true) : ∀ (env : Env) (s : St),
 /-- one round of IOS `writeMem` -/
 def iosWriteMemRound : Sess :=
   IssueCmd .save (.lit "write memory") (.stdOr [.confirm]) ["write memory", "#[ ]?|\\[confirm\\]"] ;;
-  .ite (.flag .overwrite) "strings.Contains(out, \"Overwrite the previous NVRAM configuration\")"
+  .ite (.flag .overwrite) "strings.Contains($IssueCmd, \"Overwrite the previous NVRAM configuration\")"
     (GetCmdOutput .save (.lit "") [""]) .skip ;;
-  .ite (.flag .okMark) "strings.Contains(out, \"[OK]\")" (.ret .none []) .skip ;;
-  .ite (.flag .openFailed) "strings.Contains(out, \"startup-config file open failed\")"
-    (.ite .ctrPos "retries > 0" (.decCtr ;; .cont) .skip ;;
+  .ite (.flag .okMark) "strings.Contains($IssueCmd, \"[OK]\")" (.ret .none []) .skip ;;
+  .ite (.flag .openFailed) "strings.Contains($IssueCmd, \"startup-config file open failed\")"
+    (.ite .ctrPos "$const > 0" (.decCtr ;; .cont) .skip ;;
      .abort ["write mem: startup-config open failed - giving up"]) .skip ;;
   .abort ["write mem: unexpected result: %s", "_"]
 
@@ -152,14 +152,14 @@ theorem iosRound_cont (env : Env) (s : St) (hs : s.mode = .run) (hc : (exec iosW
   · rw [exec_seq] at hc ⊢
     -- the optional confirmation exchange
     have key : ∀ s2 : St, s2.ctr = s.ctr → s2.mode ≠ .cont →
-        (exec (.ite (.flag .okMark) "strings.Contains(out, \"[OK]\")" (.ret .none []) .skip ;;
-          .ite (.flag .openFailed) "strings.Contains(out, \"startup-config file open failed\")"
-            (.ite .ctrPos "retries > 0" (.decCtr ;; .cont) .skip ;;
+        (exec (.ite (.flag .okMark) "strings.Contains($IssueCmd, \"[OK]\")" (.ret .none []) .skip ;;
+          .ite (.flag .openFailed) "strings.Contains($IssueCmd, \"startup-config file open failed\")"
+            (.ite .ctrPos "$const > 0" (.decCtr ;; .cont) .skip ;;
              .abort ["write mem: startup-config open failed - giving up"]) .skip ;;
           .abort ["write mem: unexpected result: %s", "_"]) env s2).mode = .cont →
-        s.ctr > 0 ∧ (exec (.ite (.flag .okMark) "strings.Contains(out, \"[OK]\")" (.ret .none []) .skip ;;
-          .ite (.flag .openFailed) "strings.Contains(out, \"startup-config file open failed\")"
-            (.ite .ctrPos "retries > 0" (.decCtr ;; .cont) .skip ;;
+        s.ctr > 0 ∧ (exec (.ite (.flag .okMark) "strings.Contains($IssueCmd, \"[OK]\")" (.ret .none []) .skip ;;
+          .ite (.flag .openFailed) "strings.Contains($IssueCmd, \"startup-config file open failed\")"
+            (.ite .ctrPos "$const > 0" (.decCtr ;; .cont) .skip ;;
              .abort ["write mem: startup-config open failed - giving up"]) .skip ;;
           .abort ["write mem: unexpected result: %s", "_"]) env s2).ctr = s.ctr - 1 := by
       intro s2 hctr hnc hcont
@@ -175,12 +175,12 @@ theorem iosRound_cont (env : Env) (s : St) (hs : s.mode = .run) (hc : (exec iosW
     by_cases hov : Flag.overwrite ∈ s1.last.flags
     · have hf2 := noCtr_frame (GetCmdOutput .save (.lit "") [""]) (by decide) env s1
       have hn2 := noCont_mode (GetCmdOutput .save (.lit "") [""]) (by decide) env s1 (by rw [hm1]; decide)
-      have he : exec (.ite (.flag .overwrite) "strings.Contains(out, \"Overwrite the previous NVRAM configuration\")"
+      have he : exec (.ite (.flag .overwrite) "strings.Contains($IssueCmd, \"Overwrite the previous NVRAM configuration\")"
           (GetCmdOutput .save (.lit "") [""]) .skip) env s1 = exec (GetCmdOutput .save (.lit "") [""]) env s1 := by
         simp [exec, hm1, evalCond, hov]
       rw [he] at hc ⊢
       exact key _ (hf2.trans hf1) hn2 hc
-    · have he : exec (.ite (.flag .overwrite) "strings.Contains(out, \"Overwrite the previous NVRAM configuration\")"
+    · have he : exec (.ite (.flag .overwrite) "strings.Contains($IssueCmd, \"Overwrite the previous NVRAM configuration\")"
           (GetCmdOutput .save (.lit "") [""]) .skip) env s1 = s1 := by
         simp [exec, hm1, evalCond, hov]
       rw [he] at hc ⊢
